@@ -317,7 +317,7 @@ func runC03(c *ctx, r *Report) error {
 	}
 	// the whole parser against its model AL.PW: every field of the AST (where each scalar is stored, with which position and
 	// quoting flag) on the project's corpus and on mutants of it
-	per := 8
+	per := 3
 	if !c.quick {
 		per = 300
 	}
@@ -327,7 +327,7 @@ func runC03(c *ctx, r *Report) error {
 	// AL.Props.C03Rule: in the model of rule_expression.go every value string of the AST is run through the placeholder scan
 	// (a malformed placeholder yields a diagnostic at that string). Where the real rule's `expression` diagnostics for a source
 	// differ from the model's, it departs from that: the source is a failing input.
-	perE := 10
+	perE := 5
 	if !c.quick {
 		perE = 300
 	}
@@ -336,5 +336,5 @@ func runC03(c *ctx, r *Report) error {
 			return "expression-diagnostics-differ-from-proved-model", "the `expression` diagnostics of the real rule (" + truncate(cs.Impl, 300) + ") differ from the model of rule_expression.go (" + truncate(cs.Model, 300) + ")"
 		}
 		return "", ""
-	}, perE, true, map[bool]int{true: 2500, false: 0}[c.quick])
+	}, perE, true, map[bool]int{true: 1500, false: 0}[c.quick])
 }
